@@ -23,6 +23,7 @@ class FieldWorld:
         self.named = named_consts or {}     # standard value (int) -> z3 real symbol
         self.trait = trait
         self.mont = mont
+        self.cfacts = []                    # facts about the symbols given to unnamed constants
 
     def to_fe(self, v, mont=None):
         """v: Abs | Agg of 4 concrete limbs (Montgomery form) | Agg of Abs"""
@@ -37,7 +38,17 @@ class FieldWorld:
                 return fe(z3.RealVal(std))
             if self.p - std < (1 << 40):
                 return fe(z3.RealVal(-(self.p - std)))
-            raise Unsupported("field constant %x has no symbolic name" % std)
+            # an unnamed large constant: a symbol of its own, tied to the small integers by whatever small multiple relation it has
+            # (k*c = m for small k, m); otherwise unconstrained - an over-approximation (the verdict then holds for every value of it)
+            s = z3.Real("fc_%x" % std)
+            self.named[std] = s
+            for k in range(2, 17):
+                m = k * std % self.p
+                if m < (1 << 20):
+                    self.cfacts.append(k * s == m)
+                elif self.p - m < (1 << 20):
+                    self.cfacts.append(k * s == -(self.p - m))
+            return fe(s)
         raise Unsupported("not a field element: %r" % (v,))
 
     def summaries(self, extra=None):
@@ -102,6 +113,9 @@ def run_l3(crate, world, fname, mkargs, extra=None, max_paths=64):
         if fn is None:
             raise Unsupported("function %s not found in %s" % (fname, crate))
         r = ex.run_fn(fn, args)
+        for f in world.cfacts:
+            if not any(f.eq(g) for g in ctx.facts):
+                ctx.facts.append(f)
         return dom, info, r
     return explore(run, prune=lambda a: smt.feasible(a, 5), max_paths=max_paths)
 
